@@ -1467,6 +1467,9 @@ func (f *frame) restoreLocals(old Heap, only map[string]bool) {
 			case *types.Array:
 				k, s := e.elemHeapKey(u.Elem())
 				keys = append(keys, [2]string{k, s})
+			case *types.Map:
+				vk, vs, pk, ps := e.mapHeapKeys(u)
+				keys = append(keys, [2]string{vk, vs}, [2]string{pk, ps})
 			default:
 				k, s := e.cellHeapKey(la.t)
 				keys = append(keys, [2]string{k, s})
